@@ -5,29 +5,36 @@ package bfe_server
 // C29 — the client address cannot be spoofed by untrusted peers.
 //
 // Engine E4 (bounded-exhaustive input enumeration against a reference model). One case =
-// (trust table, TCP peer, request header combination). Real chain, exactly as bfe wires it:
+// (trust table, TCP peer, request header combination). Nothing of bfe's request path is
+// transcribed: a real BfeServer (host/route/cluster/gslb tables from generated files) serves
+// an in-memory accepted connection with the real conn.serve, synchronously:
 //
-//   raw request bytes -> bfe_http.ReadRequest (real parser, real key canonicalisation)
-//   fake accepted net.Conn(peer) -> bfe_basic.NewSession
-//   real mod_trust_clientip (Init from config files, table switched through the module's own
-//     reload handler) -> HandleAccept list -> acceptHandler (real ipdict.IPTable)
-//   bfe_basic.NewRequest -> setClientAddr (this package)
-//   real mod_header (Init from config files; default headers on; one global rule copying
-//     %bfe_client_ip/%bfe_client_port) -> HandleAfterLocation list -> reqHeaderHandler
-//   outreq copy + httpProtoSet + hopByHopHeaderRemove as in ReverseProxy.ServeHTTP
-//   outreq.Write -> the bytes an upstream would receive, re-parsed line by line by the harness.
+//   newConn(fake accepted net.Conn with the peer's *net.TCPAddr) -> conn.serve
+//   -> HandleAccept list: really initialised mod_trust_clientip (config files; table switched
+//      through the module's own reload handler; real ipdict.IPTable)
+//   -> conn.readRequest (real parser, real key canonicalisation)
+//   -> ReverseProxy.ServeHTTP: setClientAddr, HandleBeforeLocation (harness observer: ClientAddr
+//      and real condition.Build conditions), route lookup, HandleAfterLocation: really
+//      initialised mod_header (default headers on; one global rule copying %bfe_client_ip and
+//      %bfe_client_port), hopByHopHeaderRemove, clusterInvoke with the real gslb/slb balancer
+//      (hash by client ip, sticky, 8 backends), HandleForward (observer again)
+//   -> recording RoundTripper: Request.Write bytes (what the backend receives) and the backend
+//      chosen; the bytes are re-parsed line by line by the harness.
 //
 // Oracle: own table-membership model (16-byte compare); untrusted => ClientAddr == peer, the
 // real condition engine sees the peer (req_cip_range) and not "trusted", upstream bytes carry
 // exactly one X-Real-Ip / X-Real-Port == peer and an X-Forwarded-For whose last element is the
-// peer IP. Trusted => a single syntactically valid X-Real-Ip (and X-Real-Port) is honoured,
+// peer IP, and the backend picked by the client-ip hash is the one picked for the same peer
+// without any address header. Trusted => a single syntactically valid X-Real-Ip (and X-Real-Port) is honoured,
 // otherwise with X-Real-Ip absent a valid first X-Forwarded-For hop (and X-Forwarded-Port) is
 // honoured, and the honoured value is what goes upstream in X-Real-*. Everything else about
 // trusted peers (invalid values, duplicates, empty values) is observed but not judged.
 
 import (
 	"bytes"
+	"encoding/json"
 	"fmt"
+	"io"
 	"io/ioutil"
 	"net"
 	"net/url"
@@ -42,7 +49,7 @@ import (
 
 	"github.com/bfenetworks/bfe/bfe_basic"
 	"github.com/bfenetworks/bfe/bfe_basic/condition"
-	"github.com/bfenetworks/bfe/bfe_bufio"
+	"github.com/bfenetworks/bfe/bfe_config/bfe_conf"
 	"github.com/bfenetworks/bfe/bfe_http"
 	"github.com/bfenetworks/bfe/bfe_module"
 	"github.com/bfenetworks/bfe/bfe_modules/mod_header"
@@ -52,12 +59,23 @@ import (
 
 // ---------------------------------------------------------------- fake accepted connection
 
+// The client's bytes are all there when the connection is accepted; after them the client has
+// half-closed (EOF), so conn.serve runs to completion in the calling goroutine.
 type c29conn struct {
 	remote, local *net.TCPAddr
+	in            []byte
+	out           bytes.Buffer
 }
 
-func (c *c29conn) Read(b []byte) (int, error)         { return 0, fmt.Errorf("c29conn: no data") }
-func (c *c29conn) Write(b []byte) (int, error)        { return len(b), nil }
+func (c *c29conn) Read(b []byte) (int, error) {
+	if len(c.in) == 0 {
+		return 0, io.EOF
+	}
+	n := copy(b, c.in)
+	c.in = c.in[n:]
+	return n, nil
+}
+func (c *c29conn) Write(b []byte) (int, error)        { return c.out.Write(b) }
 func (c *c29conn) Close() error                       { return nil }
 func (c *c29conn) LocalAddr() net.Addr                { return c.local }
 func (c *c29conn) RemoteAddr() net.Addr               { return c.remote }
@@ -151,17 +169,17 @@ func c29peers(thorough bool) []*c29peer {
 		{name: "10.0.0.8", ip: c29v4("10.0.0.8"), port: 65535, fam: "v4"},
 		{name: "10.0.0.9", ip: c29v4("10.0.0.9"), port: 40000, fam: "v4"},
 		{name: "6.6.6.6", ip: c29v4("6.6.6.6"), port: 1234, fam: "v4"}, // equals what the headers claim
-		{name: "203.0.113.9", ip: c29v4("203.0.113.9"), port: 40000, fam: "v4"},
 		{name: "mapped-10.0.0.5", ip: c29v16("10.0.0.5"), port: 40000, fam: "v4in6"},
-		{name: "mapped-10.0.0.9", ip: c29v16("10.0.0.9"), port: 40000, fam: "v4in6"},
 		{name: "2001:db8::5", ip: c29v16("2001:db8::5"), port: 40000, fam: "v6"},
-		{name: "2001:db8::f", ip: c29v16("2001:db8::f"), port: 40000, fam: "v6"},
 		{name: "2001:db8::20", ip: c29v16("2001:db8::20"), port: 40000, fam: "v6"},
 		{name: "2001:db8::21", ip: c29v16("2001:db8::21"), port: 40000, fam: "v6"},
 		{name: "fe80::1%eth0", ip: c29v16("fe80::1"), zone: "eth0", port: 40000, fam: "v6zone"},
 	}
 	if thorough {
 		ps = append(ps,
+			&c29peer{name: "203.0.113.9", ip: c29v4("203.0.113.9"), port: 40000, fam: "v4"},
+			&c29peer{name: "mapped-10.0.0.9", ip: c29v16("10.0.0.9"), port: 40000, fam: "v4in6"},
+			&c29peer{name: "2001:db8::f", ip: c29v16("2001:db8::f"), port: 40000, fam: "v6"},
 			&c29peer{name: "10.0.0.6", ip: c29v4("10.0.0.6"), port: 40000, fam: "v4"},
 			&c29peer{name: "10.0.0.7", ip: c29v4("10.0.0.7"), port: 40000, fam: "v4"},
 			&c29peer{name: "10.0.1.0", ip: c29v4("10.0.1.0"), port: 40000, fam: "v4"},
@@ -210,11 +228,11 @@ func c29xrp(thorough bool) []*c29sym {
 		{name: "absent", absent: true, port: -1},
 		{name: "1234", lines: []string{"X-Real-Port: 1234"}, port: 1234},
 		{name: "alpha", lines: []string{"X-Real-Port: abc"}, port: -1},
-		{name: "negative", lines: []string{"X-Real-Port: -1"}, port: -1},
 		{name: "dup", lines: []string{"x-real-port: 1234", "X-Real-Port: 4444"}, port: -1},
 	}
 	if thorough {
 		s = append(s,
+			&c29sym{name: "negative", lines: []string{"X-Real-Port: -1"}, port: -1},
 			&c29sym{name: "70000", lines: []string{"X-Real-Port: 70000"}, port: -1},
 			&c29sym{name: "empty", lines: []string{"X-Real-Port:"}, port: -1},
 			&c29sym{name: "0", lines: []string{"X-Real-Port: 0"}, port: 0},
@@ -231,10 +249,10 @@ func c29xff(thorough bool) []*c29sym {
 		{name: "two", lines: []string{"X-Forwarded-For: 7.7.7.7, 8.8.8.8"}, ip: "7.7.7.7"},
 		{name: "bogus", lines: []string{"X-Forwarded-For: bogus"}},
 		{name: "two-lines", lines: []string{"X-Forwarded-For: 7.7.7.7", "x-forwarded-for: 8.8.8.8"}, ip: "7.7.7.7"},
-		{name: "empty", lines: []string{"X-Forwarded-For:"}},
 	}
 	if thorough {
 		s = append(s,
+			&c29sym{name: "empty", lines: []string{"X-Forwarded-For:"}},
 			&c29sym{name: "bogus-then-valid", lines: []string{"X-Forwarded-For: bogus, 8.8.8.8"}},
 			&c29sym{name: "empty-first", lines: []string{"X-Forwarded-For: , 7.7.7.7"}},
 			&c29sym{name: "v6-first", lines: []string{"X-FORWARDED-FOR: 2001:db8::7,7.7.7.7"}, ip: "2001:db8::7"},
@@ -273,25 +291,54 @@ func c29extra(thorough bool) []*c29sym {
 	return s
 }
 
-// ---------------------------------------------------------------- environment (real modules)
+// ---------------------------------------------------------------- environment (real server + modules)
+
+const c29backends = 8
 
 type c29env struct {
 	root   string
-	cbs    *bfe_module.BfeCallbacks
+	srv    *BfeServer
 	whs    *web_monitor.WebHandlers
 	reload func(url.Values) error
 	local  *net.TCPAddr
-	br     *bfe_bufio.Reader // reused across cases (Reset), as bfe's BufioCache does
+	cd     *c29conds // conditions evaluated by the observer callbacks for the running case
+	obs    []*c29obs // one per request of the running connection
+	tr     *c29transport
 }
 
-func c29write(t *testing.T, p, s string) {
+// c29transport stands for the backends: it records what the real transport would write.
+type c29transport struct{ env *c29env }
+
+func (t *c29transport) RoundTrip(req *bfe_http.Request) (*bfe_http.Response, error) {
+	var buf bytes.Buffer
+	if err := req.Write(&buf); err != nil {
+		return nil, fmt.Errorf("c29transport: Request.Write: %v", err)
+	}
+	e := t.env
+	if n := len(e.obs); n > 0 {
+		o := e.obs[n-1]
+		o.attempts++
+		o.backend = req.URL.Host
+		o.upRaw = buf.String()
+	}
+	return &bfe_http.Response{
+		Status: "200 OK", StatusCode: 200, Proto: "HTTP/1.1", ProtoMajor: 1, ProtoMinor: 1,
+		Header: bfe_http.Header{"Content-Length": {"2"}}, Body: ioutil.NopCloser(strings.NewReader("ok")),
+		ContentLength: 2, Request: req,
+	}, nil
+}
+
+func c29write(t *testing.T, p, s string) string {
 	if err := os.MkdirAll(filepath.Dir(p), 0o755); err != nil {
 		t.Fatalf("mkdir: %v", err)
 	}
 	if err := ioutil.WriteFile(p, []byte(s), 0o644); err != nil {
 		t.Fatalf("write: %v", err)
 	}
+	return p
 }
+
+func c29json(v interface{}) string { b, _ := json.Marshal(v); return string(b) }
 
 func c29setup(t *testing.T, tables []*c29table) *c29env {
 	e := &c29env{local: &net.TCPAddr{IP: c29v4("192.0.2.1"), Port: 8080}}
@@ -300,6 +347,8 @@ func c29setup(t *testing.T, tables []*c29table) *c29env {
 		t.Fatalf("tempdir: %v", err)
 	}
 	e.root = root
+
+	// module configuration
 	c29write(t, filepath.Join(root, "mod_trust_clientip/mod_trust_clientip.conf"), "[basic]\nDataPath = mod_trust_clientip/trust_client_ip.data\n")
 	c29write(t, filepath.Join(root, "mod_trust_clientip/trust_client_ip.data"), `{"Version":"init","Config":{}}`)
 	for _, tb := range tables {
@@ -310,15 +359,53 @@ func c29setup(t *testing.T, tables []*c29table) *c29env {
 		`{"cmd":"REQ_HEADER_SET","params":["X-Verif-Cip","%bfe_client_ip"]},`+
 		`{"cmd":"REQ_HEADER_SET","params":["X-Verif-Cport","%bfe_client_port"]}],"last":false}]}}`)
 
-	e.cbs = bfe_module.NewBfeCallbacks()
+	// server data: host example.org -> product p -> cluster c1 -> sub-cluster s1 with 8 backends,
+	// balanced by the hash of the client ip, sticky to one backend
+	type M = map[string]interface{}
+	var bks []M
+	for i := 1; i <= c29backends; i++ {
+		bks = append(bks, M{"Addr": fmt.Sprintf("192.0.2.%d", 100+i), "Name": fmt.Sprintf("b%d", i), "Port": 8000, "Weight": 1})
+	}
+	cfg := bfe_conf.BfeConfig{}
+	bfe_conf.SetDefaultConf(&cfg)
+	cfg.Server.HostRuleConf = c29write(t, filepath.Join(root, "server_data_conf/host_rule.data"), c29json(M{"Version": "v", "DefaultProduct": nil, "Hosts": M{"tag": []string{"example.org"}}, "HostTags": M{"p": []string{"tag"}}}))
+	cfg.Server.VipRuleConf = c29write(t, filepath.Join(root, "server_data_conf/vip_rule.data"), c29json(M{"Version": "v", "Vips": M{}}))
+	cfg.Server.RouteRuleConf = c29write(t, filepath.Join(root, "server_data_conf/route_rule.data"), c29json(M{"Version": "v", "ProductRule": M{"p": []M{{"Cond": "default_t()", "ClusterName": "c1"}}}}))
+	cfg.Server.ClusterConf = c29write(t, filepath.Join(root, "server_data_conf/cluster_conf.data"), c29json(M{"Version": "v", "Config": M{"c1": M{
+		"BackendConf":  M{"TimeoutConnSrv": 2000, "TimeoutResponseHeader": 50000, "MaxIdleConnsPerHost": 0, "RetryLevel": 0},
+		"CheckConf":    M{"Schem": "tcp", "FailNum": 1000, "CheckInterval": 1000},
+		"GslbBasic":    M{"CrossRetry": 0, "RetryMax": 0, "HashConf": M{"HashStrategy": 1, "HashHeader": "Cookie:UID", "SessionSticky": true}},
+		"ClusterBasic": M{"TimeoutReadClient": 30000, "TimeoutWriteClient": 60000, "TimeoutReadClientAgain": 30000, "ReqWriteBufferSize": 512, "ReqFlushInterval": 0, "ResFlushInterval": -1, "CancelOnClientClose": false},
+	}}}))
+	cfg.Server.GslbConf = c29write(t, filepath.Join(root, "cluster_conf/gslb.data"), c29json(M{"Clusters": M{"c1": M{"GSLB_BLACKHOLE": 0, "s1": 100}}, "Hostname": "", "Ts": "0"}))
+	cfg.Server.ClusterTableConf = c29write(t, filepath.Join(root, "cluster_conf/cluster_table.data"), c29json(M{"Config": M{"c1": M{"s1": bks}}, "Version": "v"}))
+	cfg.Server.NameConf = ""
+	e.srv = NewBfeServer(cfg, root, "verif")
+	if err := e.srv.InitDataLoad(); err != nil {
+		t.Fatalf("InitDataLoad: %v", err)
+	}
+	e.tr = &c29transport{env: e}
+	e.srv.ReverseProxy.tsMu.Lock()
+	for name := range e.srv.ReverseProxy.transports {
+		e.srv.ReverseProxy.transports[name] = e.tr
+	}
+	e.srv.ReverseProxy.tsMu.Unlock()
+
+	// modules on the server's own callback table, in bfe's module order, then the observers
 	e.whs = web_monitor.NewWebHandlers()
 	mt := mod_trust_clientip.NewModuleTrustClientIP()
-	if err := mt.Init(e.cbs, e.whs, root); err != nil {
+	if err := mt.Init(e.srv.CallBacks, e.whs, root); err != nil {
 		t.Fatalf("mod_trust_clientip.Init: %v", err)
 	}
 	mh := mod_header.NewModuleHeader()
-	if err := mh.Init(e.cbs, e.whs, root); err != nil {
+	if err := mh.Init(e.srv.CallBacks, e.whs, root); err != nil {
 		t.Fatalf("mod_header.Init: %v", err)
+	}
+	if err := e.srv.CallBacks.AddFilter(bfe_module.HandleBeforeLocation, e.observeBeforeLocation); err != nil {
+		t.Fatalf("AddFilter: %v", err)
+	}
+	if err := e.srv.CallBacks.AddFilter(bfe_module.HandleForward, e.observeForward); err != nil {
+		t.Fatalf("AddFilter: %v", err)
 	}
 	h, err := e.whs.GetHandler(web_monitor.WebHandleReload, "mod_trust_clientip")
 	if err != nil {
@@ -341,17 +428,25 @@ func (e *c29env) load(t *testing.T, tb *c29table) {
 
 // ---------------------------------------------------------------- one execution
 
-type c29obs struct {
-	trustFlag   bool
+// c29view is what a module sees of the client address at one callback point.
+type c29view struct {
+	seen        bool
 	clientNil   bool
 	clientIP    net.IP
 	clientPort  int
-	clientZone  string
 	condPeer    bool // req_cip_range(peer,peer)
 	condClaimed bool // req_cip_range over the addresses the headers claim
 	condTrusted bool // req_cip_trusted()
-	up          map[string][]string // lower-cased exact field name -> values, from the upstream bytes
-	upRaw       string
+}
+
+type c29obs struct {
+	trustFlag bool
+	early     c29view // HandleBeforeLocation: first callback after setClientAddr
+	late      c29view // HandleForward: last callback before the request is written
+	attempts  int
+	backend   string
+	up        map[string][]string // lower-cased exact field name -> values, from the upstream bytes
+	upRaw     string
 }
 
 type c29conds struct {
@@ -368,93 +463,78 @@ func c29mustCond(t *testing.T, s string) condition.Condition {
 	return c
 }
 
-func c29run(e *c29env, p *c29peer, raw []byte, cd *c29conds) (*c29obs, error) {
+func (e *c29env) view(req *bfe_basic.Request) c29view {
+	v := c29view{seen: true}
+	if req.ClientAddr == nil {
+		v.clientNil = true
+	} else {
+		v.clientIP = append(net.IP(nil), req.ClientAddr.IP...)
+		v.clientPort = req.ClientAddr.Port
+	}
+	v.condPeer = e.cd.peer.Match(req)
+	for _, c := range e.cd.claimed {
+		if c.Match(req) {
+			v.condClaimed = true
+		}
+	}
+	v.condTrusted = e.cd.trusted.Match(req)
+	return v
+}
+
+func (e *c29env) observeBeforeLocation(req *bfe_basic.Request) (int, *bfe_http.Response) {
+	o := &c29obs{trustFlag: req.Session.TrustSource()}
+	o.early = e.view(req)
+	e.obs = append(e.obs, o)
+	return bfe_module.BfeHandlerGoOn, nil
+}
+
+func (e *c29env) observeForward(req *bfe_basic.Request) int {
+	if n := len(e.obs); n > 0 {
+		e.obs[n-1].late = e.view(req)
+	}
+	return bfe_module.BfeHandlerGoOn
+}
+
+// c29run serves one accepted connection carrying the given requests back to back.
+func c29run(e *c29env, p *c29peer, raws [][]byte, cd *c29conds) ([]*c29obs, error) {
 	remote := &net.TCPAddr{IP: append(net.IP(nil), p.ip...), Port: p.port, Zone: p.zone}
-	conn := &c29conn{remote: remote, local: e.local}
-
-	// connection accepted: newConn -> NewSession, then the HandleAccept callbacks
-	session := bfe_basic.NewSession(conn)
-	if hl := e.cbs.GetHandlerList(bfe_module.HandleAccept); hl != nil {
-		if ret := hl.FilterAccept(session); ret != bfe_module.BfeHandlerGoOn {
-			return nil, fmt.Errorf("accept handlers returned %d", ret)
-		}
-	} else {
-		return nil, fmt.Errorf("no accept handler registered")
-	}
-
-	// conn.readRequest
-	if e.br == nil {
-		e.br = bfe_bufio.NewReader(bytes.NewReader(raw))
-	} else {
-		e.br.Reset(bytes.NewReader(raw))
-	}
-	req, err := bfe_http.ReadRequest(e.br, 8192)
+	conn := &c29conn{remote: remote, local: e.local, in: bytes.Join(raws, nil)}
+	e.cd, e.obs = cd, nil
+	c, err := newConn(conn, e.srv)
 	if err != nil {
-		return nil, fmt.Errorf("ReadRequest: %v", err)
+		return nil, fmt.Errorf("newConn: %v", err)
 	}
-	req.RemoteAddr = conn.RemoteAddr().String()
-	basicReq := bfe_basic.NewRequest(req, conn, bfe_basic.NewRequestStat(req.State.StartTime), session, nil)
-
-	// ReverseProxy.ServeHTTP
-	setClientAddr(basicReq)
-
-	o := &c29obs{trustFlag: session.TrustSource()}
-	if basicReq.ClientAddr == nil {
-		o.clientNil = true
-	} else {
-		o.clientIP = append(net.IP(nil), basicReq.ClientAddr.IP...)
-		o.clientPort = basicReq.ClientAddr.Port
-		o.clientZone = basicReq.ClientAddr.Zone
+	c.serve()
+	obs := e.obs
+	e.obs = nil
+	if len(obs) != len(raws) {
+		return nil, fmt.Errorf("%d requests served, %d sent; client got %q", len(obs), len(raws), conn.out.String())
 	}
-	o.condPeer = cd.peer.Match(basicReq)
-	for _, c := range cd.claimed {
-		if c.Match(basicReq) {
-			o.condClaimed = true
+	if n := strings.Count(conn.out.String(), "HTTP/1.1 200 OK\r\n"); n != len(raws) {
+		return nil, fmt.Errorf("%d requests sent, client got %q", len(raws), conn.out.String())
+	}
+	for _, o := range obs {
+		if o.attempts != 1 || !o.late.seen {
+			return nil, fmt.Errorf("request reached the backend %d times (forward callback seen: %v); client got %q", o.attempts, o.late.seen, conn.out.String())
+		}
+		o.up = map[string][]string{}
+		head := o.upRaw
+		if i := strings.Index(head, "\r\n\r\n"); i >= 0 {
+			head = head[:i]
+		}
+		for i, ln := range strings.Split(head, "\r\n") {
+			if i == 0 {
+				continue
+			}
+			k := strings.IndexByte(ln, ':')
+			if k < 0 {
+				return nil, fmt.Errorf("upstream header line without colon: %q", ln)
+			}
+			name := strings.ToLower(ln[:k])
+			o.up[name] = append(o.up[name], strings.Trim(ln[k+1:], " \t"))
 		}
 	}
-	o.condTrusted = cd.trusted.Match(basicReq)
-
-	basicReq.Route.Product = "p"
-	hl := e.cbs.GetHandlerList(bfe_module.HandleAfterLocation)
-	if hl == nil {
-		return nil, fmt.Errorf("no after-location handler registered")
-	}
-	if ret, _ := hl.FilterRequest(basicReq); ret != bfe_module.BfeHandlerGoOn {
-		return nil, fmt.Errorf("after-location handlers returned %d", ret)
-	}
-
-	outreq := new(bfe_http.Request)
-	*outreq = *req
-	basicReq.OutRequest = outreq
-	httpProtoSet(outreq)
-	hopByHopHeaderRemove(outreq, req)
-	u := *outreq.URL
-	outreq.URL = &u
-	outreq.URL.Scheme = "http"
-	outreq.URL.Host = "192.0.2.77:8000"
-
-	var buf bytes.Buffer
-	if err := outreq.Write(&buf); err != nil {
-		return nil, fmt.Errorf("outreq.Write: %v", err)
-	}
-	o.upRaw = buf.String()
-	o.up = map[string][]string{}
-	head := o.upRaw
-	if i := strings.Index(head, "\r\n\r\n"); i >= 0 {
-		head = head[:i]
-	}
-	for i, ln := range strings.Split(head, "\r\n") {
-		if i == 0 {
-			continue
-		}
-		k := strings.IndexByte(ln, ':')
-		if k < 0 {
-			return nil, fmt.Errorf("upstream header line without colon: %q", ln)
-		}
-		name := strings.ToLower(ln[:k])
-		o.up[name] = append(o.up[name], strings.Trim(ln[k+1:], " \t"))
-	}
-	return o, nil
+	return obs, nil
 }
 
 // last element of the combined X-Forwarded-For list (field lines combine in order with ",").
@@ -478,19 +558,6 @@ func c29ipClass(got net.IP, p *c29peer, xri, xff *c29sym) string {
 	return "other"
 }
 
-// c29ctx renders the context of a violation lazily (only when one is reported).
-type c29ctx struct {
-	tb           *c29table
-	p            *c29peer
-	o            *c29obs
-	modelTrusted bool
-	raw          []byte
-}
-
-func (c c29ctx) String() string {
-	return fmt.Sprintf("table=%s %s peer=%s:%d trustFlag=%v modelTrusted=%v request=%q upstream=%q", c.tb.name, c.tb.json(), c.p.name, c.p.port, c.o.trustFlag, c.modelTrusted, c.raw, c.o.upRaw)
-}
-
 func c29valClass(v string, accept []string, syms ...*c29sym) string {
 	for _, a := range accept {
 		if v == a {
@@ -505,6 +572,226 @@ func c29valClass(v string, accept []string, syms ...*c29sym) string {
 		}
 	}
 	return "other"
+}
+
+// c29hdr is one request's address-header combination.
+type c29hdr struct{ xri, xrp, xff, xfp, ex *c29sym }
+
+func (h c29hdr) key() string {
+	return h.xri.name + "," + h.xrp.name + "," + h.xff.name + "," + h.xfp.name + "," + h.ex.name
+}
+
+// nominated reports whether the request's Connection header names the field (lower-case name).
+func (h c29hdr) nominated(name string) bool {
+	for _, l := range h.ex.lines {
+		k := strings.IndexByte(l, ':')
+		if k < 0 || !strings.EqualFold(l[:k], "Connection") {
+			continue
+		}
+		for _, tok := range strings.Split(l[k+1:], ",") {
+			if strings.EqualFold(strings.TrimSpace(tok), name) {
+				return true
+			}
+		}
+	}
+	return false
+}
+
+func (h c29hdr) trivial() bool { return h.xri.absent && h.xrp.absent && h.xff.absent && h.xfp.absent }
+
+func (h c29hdr) raw() []byte {
+	var lines []string
+	lines = append(lines, "GET /c29?a=1 HTTP/1.1", "Host: example.org")
+	// hostile fields first and last around an innocent one
+	lines = append(lines, h.xff.lines...)
+	lines = append(lines, h.xri.lines...)
+	lines = append(lines, "User-Agent: c29")
+	lines = append(lines, h.xrp.lines...)
+	lines = append(lines, h.xfp.lines...)
+	lines = append(lines, h.ex.lines...)
+	return []byte(strings.Join(lines, "\r\n") + "\r\n\r\n")
+}
+
+// c29judge is the oracle for one served request.
+type c29judge struct {
+	reported     map[string]bool // signatures already written out by this process
+	r            *vk.Run
+	tb           *c29table
+	p            *c29peer
+	modelTrusted bool
+	peerClaimed  bool   // the peer's own address is one of the addresses the headers claim
+	baseline     string // backend picked for this peer when the request carries no address header
+}
+
+func (j *c29judge) judge(id, pos string, h c29hdr, o *c29obs, raw []byte) {
+	r, p, tb := j.r, j.p, j.tb
+	xri, xrp, xff, xfp := h.xri, h.xrp, h.xff, h.xfp
+	ipS, portS := p.ip.String(), strconv.Itoa(p.port)
+	acceptIP := []string{ipS}
+	if p.zone != "" {
+		acceptIP = append(acceptIP, ipS+"%"+p.zone)
+	}
+	fam := p.fam + pos
+	flag := ""
+	if o.trustFlag != j.modelTrusted {
+		flag = fmt.Sprintf(":trust-flag-%v-but-table-membership-%v", o.trustFlag, j.modelTrusted)
+	}
+	ctx := func() string {
+		return fmt.Sprintf("table=%s %s peer=%s:%d trustFlag=%v modelTrusted=%v request=%q upstream=%q backend=%s", tb.name, tb.json(), p.name, p.port, o.trustFlag, j.modelTrusted, raw, o.upRaw, o.backend)
+	}
+	// vk keeps the first case of a signature and only counts the others: render details once
+	viol := func(sig string, detail func() string) {
+		if j.reported[sig] {
+			r.Violation(sig, id, "")
+			return
+		}
+		j.reported[sig] = true
+		r.Violation(sig, id, detail())
+	}
+	views := []struct {
+		at string
+		v  *c29view
+	}{{"before-location", &o.early}, {"forward", &o.late}}
+
+	if !j.modelTrusted {
+		// ---- untrusted peer: everything equals the socket address
+		r.Outcome("untrusted")
+		for _, w := range views {
+			v := w.v
+			var got net.IP
+			if !v.clientNil {
+				got = v.clientIP
+			}
+			if cls := c29ipClass(got, p, xri, xff); cls != "peer" {
+				viol("untrusted:client-addr@"+w.at+":"+fam+":ip-"+cls+flag, func() string { return fmt.Sprintf("ClientAddr IP = %v, peer %s; %s", got, ipS, ctx()) })
+			} else if v.clientPort != p.port {
+				viol("untrusted:client-addr@"+w.at+":"+fam+":port-not-peer"+flag, func() string {
+					return fmt.Sprintf("ClientAddr port = %d, peer port %d; %s", v.clientPort, p.port, ctx())
+				})
+			}
+			if !v.condPeer {
+				viol("untrusted:condition@"+w.at+":"+fam+":req_cip_range(peer)-false"+flag, func() string { return "the condition engine does not see the peer address as client address; " + ctx() })
+			}
+			if v.condClaimed && !j.peerClaimed {
+				viol("untrusted:condition@"+w.at+":"+fam+":req_cip_range(claimed)-true"+flag, func() string { return "the condition engine sees an address claimed by request headers; " + ctx() })
+			}
+			if v.condTrusted {
+				viol("untrusted:condition@"+w.at+":"+fam+":req_cip_trusted-true"+flag, func() string { return "req_cip_trusted() matches for a peer outside the table; " + ctx() })
+			}
+		}
+		if o.backend != j.baseline {
+			viol("untrusted:balancing:"+fam+":backend-depends-on-request-headers"+flag, func() string {
+				return fmt.Sprintf("client-ip hash picked backend %s, but %s for the same peer without address headers; %s", o.backend, j.baseline, ctx())
+			})
+		}
+		for _, f := range []struct {
+			name   string
+			accept []string
+			syms   []*c29sym
+		}{
+			{"x-real-ip", acceptIP, []*c29sym{xri, xff}},
+			{"x-real-port", []string{portS}, []*c29sym{xrp, xfp}},
+			{"x-verif-cip", acceptIP, []*c29sym{xri, xff}},          // %bfe_client_ip
+			{"x-verif-cport", []string{portS}, []*c29sym{xrp, xfp}}, // %bfe_client_port
+		} {
+			vals := o.up[f.name]
+			switch {
+			case len(vals) == 0 && h.nominated(f.name):
+				// one root cause whatever the peer family or the position on the connection
+				viol("untrusted:upstream:"+f.name+":stripped-by-connection-nomination"+flag, func() string {
+					return "no " + f.name + " field sent upstream (the request's Connection header names it); " + ctx()
+				})
+			case len(vals) == 0:
+				viol("untrusted:upstream:"+f.name+":"+fam+":missing"+flag, func() string { return "no " + f.name + " field sent upstream; " + ctx() })
+			case len(vals) > 1:
+				viol("untrusted:upstream:"+f.name+":"+fam+":"+strconv.Itoa(len(vals))+"-fields"+flag, func() string { return fmt.Sprintf("%s sent upstream %d times: %q; %s", f.name, len(vals), vals, ctx()) })
+			default:
+				if cls := c29valClass(vals[0], f.accept, f.syms...); cls != "peer" {
+					viol("untrusted:upstream:"+f.name+":"+fam+":value-"+cls+flag, func() string {
+						return fmt.Sprintf("%s sent upstream = %q, peer %s:%s; %s", f.name, vals[0], ipS, portS, ctx())
+					})
+				}
+			}
+		}
+		if vals := o.up["x-forwarded-for"]; len(vals) == 0 && h.nominated("x-forwarded-for") {
+			viol("untrusted:upstream:x-forwarded-for:stripped-by-connection-nomination"+flag, func() string {
+				return "no X-Forwarded-For sent upstream (the request's Connection header names it); " + ctx()
+			})
+		} else if len(vals) == 0 {
+			viol("untrusted:upstream:x-forwarded-for:"+fam+":missing"+flag, func() string { return "no X-Forwarded-For sent upstream; " + ctx() })
+		} else if last := c29lastHop(vals); c29valClass(last, acceptIP) != "peer" {
+			viol("untrusted:upstream:x-forwarded-for:"+fam+":last-hop-"+c29valClass(last, acceptIP, xri, xff)+flag, func() string {
+				return fmt.Sprintf("X-Forwarded-For sent upstream = %q, last hop %q, peer %s; %s", vals, last, ipS, ctx())
+			})
+		}
+		return
+	}
+
+	// ---- trusted peer: the honoured header decides (only the clear cases are judged)
+	wantIP, wantPort, src := "", -1, ""
+	switch {
+	case xri.ip != "":
+		wantIP, wantPort, src = xri.ip, xrp.port, "x-real-ip"
+	case xri.absent && xff.ip != "":
+		wantIP, wantPort, src = xff.ip, xfp.port, "x-forwarded-for"
+	}
+	if wantIP == "" {
+		if o.early.clientNil {
+			r.Outcome("trusted:unjudged:client-addr-nil")
+		} else {
+			r.Outcome("trusted:unjudged:client-addr-set")
+		}
+		return
+	}
+	r.Outcome("trusted:honour-" + src)
+	want := net.ParseIP(wantIP)
+	for _, w := range views {
+		v := w.v
+		var got net.IP
+		if !v.clientNil {
+			got = v.clientIP
+		}
+		if got == nil || !got.Equal(want) {
+			viol("trusted:client-addr@"+w.at+":"+src+":"+fam+":ip-"+c29ipClass(got, p, xri, xff)+flag, func() string {
+				return fmt.Sprintf("ClientAddr IP = %v, honoured header says %s; %s", got, wantIP, ctx())
+			})
+			return
+		}
+		if wantPort >= 0 && v.clientPort != wantPort {
+			viol("trusted:client-addr@"+w.at+":"+src+":"+fam+":port-not-honoured"+flag, func() string {
+				return fmt.Sprintf("ClientAddr port = %d, honoured header says %d; %s", v.clientPort, wantPort, ctx())
+			})
+		}
+		if !v.condTrusted {
+			viol("trusted:condition@"+w.at+":"+fam+":req_cip_trusted-false"+flag, func() string { return "req_cip_trusted() does not match for a peer inside the table; " + ctx() })
+		}
+	}
+	for _, name := range []string{"x-real-ip", "x-verif-cip"} {
+		vals := o.up[name]
+		if len(vals) == 0 && h.nominated(name) {
+			viol("trusted:upstream:"+name+":stripped-by-connection-nomination"+flag, func() string {
+				return fmt.Sprintf("no %s sent upstream (the request's Connection header names it), honoured header says %s; %s", name, wantIP, ctx())
+			})
+		} else if len(vals) != 1 || net.ParseIP(vals[0]) == nil || !net.ParseIP(vals[0]).Equal(want) {
+			viol("trusted:upstream:"+name+":"+src+":"+fam+":not-honoured-value"+flag, func() string {
+				return fmt.Sprintf("%s sent upstream = %q, honoured header says %s; %s", name, vals, wantIP, ctx())
+			})
+		}
+	}
+	if wantPort >= 0 {
+		for _, name := range []string{"x-real-port", "x-verif-cport"} {
+			vals := o.up[name]
+			if len(vals) == 0 && h.nominated(name) {
+				viol("trusted:upstream:"+name+":stripped-by-connection-nomination"+flag, func() string {
+					return fmt.Sprintf("no %s sent upstream (the request's Connection header names it), honoured header says %d; %s", name, wantPort, ctx())
+				})
+			} else if len(vals) != 1 || vals[0] != strconv.Itoa(wantPort) {
+				viol("trusted:upstream:"+name+":"+src+":"+fam+":not-honoured-value"+flag, func() string {
+					return fmt.Sprintf("%s sent upstream = %q, honoured header says %d; %s", name, vals, wantPort, ctx())
+				})
+			}
+		}
+	}
 }
 
 func TestVerifC29(t *testing.T) {
@@ -525,11 +812,24 @@ func TestVerifC29(t *testing.T) {
 	condClaimed = append(condClaimed, c29mustCond(t, `req_cip_range("2001:db8::6", "2001:db8::7")`))
 	claimedSet := &c29table{ranges: [][2]string{{"6.6.6.6", "6.6.6.6"}, {"7.7.7.7", "7.7.7.7"}, {"8.8.8.8", "8.8.8.8"}, {"9.9.9.9", "9.9.9.9"}, {"2001:db8::6", "2001:db8::7"}}}
 
-	headerCombos := len(xris) * len(xrps) * len(xffs) * len(xfps) * len(extras)
-	r.Set("bounds", fmt.Sprintf("tables=%d peers=%d x-real-ip=%d x-real-port=%d x-forwarded-for=%d x-forwarded-port=%d extra=%d => %d header combinations per (table,peer)",
-		len(tables), len(peers), len(xris), len(xrps), len(xffs), len(xfps), len(extras), headerCombos))
+	// keep-alive family: two requests on one connection, over a reduced alphabet
+	none := c29hdr{xris[0], xrps[0], xffs[0], xfps[0], extras[0]}
+	pairSet := []c29hdr{
+		none,
+		{xris[1], xrps[1], xffs[0], xfps[0], extras[0]}, // X-Real-Ip + X-Real-Port
+		{xris[0], xrps[0], xffs[2], xfps[1], extras[0]}, // X-Forwarded-For (2 hops) + X-Forwarded-Port
+		{xris[4], xrps[0], xffs[1], xfps[0], extras[1]}, // claims a table member, Connection nominates
+		{xris[5], xrps[2], xffs[3], xfps[2], extras[0]}, // all invalid
+		{xris[7], xrps[3], xffs[4], xfps[1], extras[0]}, // duplicates
+	}
 
+	headerCombos := len(xris) * len(xrps) * len(xffs) * len(xfps) * len(extras)
+	r.Set("bounds", fmt.Sprintf("tables=%d peers=%d x-real-ip=%d x-real-port=%d x-forwarded-for=%d x-forwarded-port=%d extra=%d => %d single-request header combinations + %d two-request connections per (table,peer)",
+		len(tables), len(peers), len(xris), len(xrps), len(xffs), len(xfps), len(extras), headerCombos, len(pairSet)*len(pairSet)))
+
+	reported := map[string]bool{}
 	panics := 0
+	backendsSeen := map[string]bool{}
 	idx := 0
 	for _, tb := range tables {
 		e.load(t, tb)
@@ -542,158 +842,82 @@ func TestVerifC29(t *testing.T) {
 				return
 			}
 			ipS := p.ip.String()
-			portS := strconv.Itoa(p.port)
-			acceptIP := []string{ipS}
-			if p.zone != "" {
-				acceptIP = append(acceptIP, ipS+"%"+p.zone)
-			}
 			cd := &c29conds{peer: c29mustCond(t, fmt.Sprintf("req_cip_range(%q, %q)", ipS, ipS)), claimed: condClaimed, trusted: condTrusted}
-			modelTrusted := tb.contains(p.ip)
-			peerIsClaimed := claimedSet.contains(p.ip)
+			j := &c29judge{reported: reported, r: r, tb: tb, p: p, modelTrusted: tb.contains(p.ip), peerClaimed: claimedSet.contains(p.ip)}
+
+			// baseline for the balancing oracle: same peer, no address header (not a case)
+			if !j.modelTrusted {
+				obs, err := c29run(e, p, [][]byte{none.raw()}, cd)
+				if err != nil {
+					t.Fatalf("C29 harness: baseline %s/%s: %v", tb.name, p.name, err)
+				}
+				j.baseline = obs[0].backend
+				backendsSeen[j.baseline] = true
+			}
+
+			exec := func(id string, hs []c29hdr) {
+				var raws [][]byte
+				for _, h := range hs {
+					raws = append(raws, h.raw())
+				}
+				var obs []*c29obs
+				var rerr error
+				if pn, val := vk.Guard(func() { obs, rerr = c29run(e, p, raws, cd) }); pn {
+					panics++
+					r.Outcome("panic:" + vk.PanicSite(val))
+					t.Logf("C29: panic in case %s: %s", id, val)
+					return
+				}
+				if rerr != nil {
+					t.Fatalf("C29 harness: case %s: %v", id, rerr)
+				}
+				nontrivial := false
+				for i, h := range hs {
+					pos := ""
+					if len(hs) > 1 {
+						pos = fmt.Sprintf(":req%d-of-%d", i+1, len(hs))
+					}
+					j.judge(id, pos, h, obs[i], raws[i])
+					backendsSeen[obs[i].backend] = true
+					if !h.trivial() {
+						nontrivial = true
+					}
+				}
+				if nontrivial {
+					r.Nontrivial(id)
+				}
+				if len(hs) == 1 && idx%5 == 0 && hs[0].xri.name == "v4" && hs[0].xrp.name == "1234" && hs[0].xff.name == "two" && hs[0].xfp.name == "absent" && hs[0].ex.name == "none" {
+					r.Sample(map[string]interface{}{"case": id, "model_trusted": j.modelTrusted, "client_addr": fmt.Sprintf("%v:%d", obs[0].early.clientIP, obs[0].early.clientPort), "backend": obs[0].backend, "upstream": obs[0].upRaw})
+				}
+			}
 
 			for _, xri := range xris {
 				for _, xrp := range xrps {
 					for _, xff := range xffs {
 						for _, xfp := range xfps {
 							for _, ex := range extras {
-								id := vk.Key(tb.name, p.name, xri.name, xrp.name, xff.name, xfp.name, ex.name)
+								h := c29hdr{xri, xrp, xff, xfp, ex}
+								id := vk.Key(tb.name, p.name, h.key())
 								if !r.Case(id) {
 									continue
 								}
-								var lines []string
-								lines = append(lines, "GET /c29?a=1 HTTP/1.1", "Host: example.org")
-								// hostile fields first and last around an innocent one
-								lines = append(lines, xff.lines...)
-								lines = append(lines, xri.lines...)
-								lines = append(lines, "User-Agent: c29")
-								lines = append(lines, xrp.lines...)
-								lines = append(lines, xfp.lines...)
-								lines = append(lines, ex.lines...)
-								raw := []byte(strings.Join(lines, "\r\n") + "\r\n\r\n")
-
-								var o *c29obs
-								var rerr error
-								if pn, val := vk.Guard(func() { o, rerr = c29run(e, p, raw, cd) }); pn {
-									panics++
-									r.Outcome("panic:" + vk.PanicSite(val))
-									t.Logf("C29: panic in case %s: %s", id, val)
-									continue
-								}
-								if rerr != nil {
-									t.Fatalf("C29 harness: case %s: %v", id, rerr)
-								}
-								if !xri.absent || !xrp.absent || !xff.absent || !xfp.absent {
-									r.Nontrivial(id)
-								}
-								fam := p.fam
-								flag := ""
-								if o.trustFlag != modelTrusted {
-									flag = fmt.Sprintf(":trust-flag-%v-but-table-membership-%v", o.trustFlag, modelTrusted)
-								}
-								ctx := c29ctx{tb: tb, p: p, o: o, modelTrusted: modelTrusted, raw: raw}
-								var got net.IP
-								if !o.clientNil {
-									got = o.clientIP
-								}
-
-								if !modelTrusted {
-									// ---- untrusted peer: everything equals the socket address
-									r.Outcome("untrusted")
-									if cls := c29ipClass(got, p, xri, xff); cls != "peer" {
-										r.Violation("untrusted:client-addr:"+fam+":ip-"+cls+flag, id, fmt.Sprintf("ClientAddr IP = %v, peer %s; %s", got, ipS, ctx))
-									} else if o.clientPort != p.port {
-										r.Violation("untrusted:client-addr:"+fam+":port-not-peer"+flag, id, fmt.Sprintf("ClientAddr port = %d, peer port %d; %s", o.clientPort, p.port, ctx))
-									}
-									if !o.condPeer {
-										r.Violation("untrusted:condition:"+fam+":req_cip_range(peer)-false"+flag, id, "the condition engine does not see the peer address as client address; "+ctx.String())
-									}
-									if o.condClaimed && !peerIsClaimed {
-										r.Violation("untrusted:condition:"+fam+":req_cip_range(claimed)-true"+flag, id, "the condition engine sees an address claimed by request headers; "+ctx.String())
-									}
-									if o.condTrusted {
-										r.Violation("untrusted:condition:"+fam+":req_cip_trusted-true"+flag, id, "req_cip_trusted() matches for a peer outside the table; "+ctx.String())
-									}
-									for _, f := range []struct {
-										name   string
-										accept []string
-										syms   []*c29sym
-									}{
-										{"x-real-ip", acceptIP, []*c29sym{xri, xff}},
-										{"x-real-port", []string{portS}, []*c29sym{xrp, xfp}},
-										{"x-verif-cip", acceptIP, []*c29sym{xri, xff}},   // %bfe_client_ip
-										{"x-verif-cport", []string{portS}, []*c29sym{xrp, xfp}}, // %bfe_client_port
-									} {
-										vals := o.up[f.name]
-										switch {
-										case len(vals) == 0:
-											r.Violation("untrusted:upstream:"+f.name+":"+fam+":missing"+flag, id, "no "+f.name+" field sent upstream; "+ctx.String())
-										case len(vals) > 1:
-											r.Violation("untrusted:upstream:"+f.name+":"+fam+":"+strconv.Itoa(len(vals))+"-fields"+flag, id, fmt.Sprintf("%s sent upstream %d times: %q; %s", f.name, len(vals), vals, ctx))
-										default:
-											if cls := c29valClass(vals[0], f.accept, f.syms...); cls != "peer" {
-												r.Violation("untrusted:upstream:"+f.name+":"+fam+":value-"+cls+flag, id, fmt.Sprintf("%s sent upstream = %q, peer %s:%s; %s", f.name, vals[0], ipS, portS, ctx))
-											}
-										}
-									}
-									if vals := o.up["x-forwarded-for"]; len(vals) == 0 {
-										r.Violation("untrusted:upstream:x-forwarded-for:"+fam+":missing"+flag, id, "no X-Forwarded-For sent upstream; "+ctx.String())
-									} else if last := c29lastHop(vals); c29valClass(last, acceptIP) != "peer" {
-										r.Violation("untrusted:upstream:x-forwarded-for:"+fam+":last-hop-"+c29valClass(last, acceptIP, xri, xff)+flag, id, fmt.Sprintf("X-Forwarded-For sent upstream = %q, last hop %q, peer %s; %s", vals, last, ipS, ctx))
-									}
-									continue
-								}
-
-								// ---- trusted peer: the honoured header decides (only the clear cases are judged)
-								wantIP, wantPort, src := "", -1, ""
-								switch {
-								case xri.ip != "":
-									wantIP, wantPort, src = xri.ip, xrp.port, "x-real-ip"
-								case xri.absent && xff.ip != "":
-									wantIP, wantPort, src = xff.ip, xfp.port, "x-forwarded-for"
-								}
-								if wantIP == "" {
-									if o.clientNil {
-										r.Outcome("trusted:unjudged:client-addr-nil")
-									} else {
-										r.Outcome("trusted:unjudged:client-addr-set")
-									}
-									continue
-								}
-								r.Outcome("trusted:honour-" + src)
-								want := net.ParseIP(wantIP)
-								if got == nil || !got.Equal(want) {
-									r.Violation("trusted:client-addr:"+src+":"+fam+":ip-"+c29ipClass(got, p, xri, xff)+flag, id, fmt.Sprintf("ClientAddr IP = %v, honoured header says %s; %s", got, wantIP, ctx))
-									continue
-								}
-								if wantPort >= 0 && o.clientPort != wantPort {
-									r.Violation("trusted:client-addr:"+src+":"+fam+":port-not-honoured"+flag, id, fmt.Sprintf("ClientAddr port = %d, honoured header says %d; %s", o.clientPort, wantPort, ctx))
-								}
-								if !o.condTrusted {
-									r.Violation("trusted:condition:"+fam+":req_cip_trusted-false"+flag, id, "req_cip_trusted() does not match for a peer inside the table; "+ctx.String())
-								}
-								for _, name := range []string{"x-real-ip", "x-verif-cip"} {
-									vals := o.up[name]
-									if len(vals) != 1 || net.ParseIP(vals[0]) == nil || !net.ParseIP(vals[0]).Equal(want) {
-										r.Violation("trusted:upstream:"+name+":"+src+":"+fam+":not-honoured-value"+flag, id, fmt.Sprintf("%s sent upstream = %q, honoured header says %s; %s", name, vals, wantIP, ctx))
-									}
-								}
-								if wantPort >= 0 {
-									for _, name := range []string{"x-real-port", "x-verif-cport"} {
-										vals := o.up[name]
-										if len(vals) != 1 || vals[0] != strconv.Itoa(wantPort) {
-											r.Violation("trusted:upstream:"+name+":"+src+":"+fam+":not-honoured-value"+flag, id, fmt.Sprintf("%s sent upstream = %q, honoured header says %d; %s", name, vals, wantPort, ctx))
-										}
-									}
-								}
-								if idx%7 == 0 && xri.name == "v4" && xrp.name == "1234" && xff.name == "two" && xfp.name == "absent" && ex.name == "none" {
-									r.Sample(map[string]interface{}{"case": id, "client_addr": fmt.Sprintf("%v:%d", got, o.clientPort), "upstream": o.upRaw})
-								}
+								exec(id, []c29hdr{h})
 							}
 						}
 					}
 				}
 			}
+			for _, h1 := range pairSet {
+				for _, h2 := range pairSet {
+					id := vk.Key(tb.name, p.name, "keepalive", h1.key(), h2.key())
+					if !r.Case(id) {
+						continue
+					}
+					exec(id, []c29hdr{h1, h2})
+				}
+			}
 		}
 	}
 	r.Set("panics", panics)
+	r.Set("distinct_backends_picked", len(backendsSeen))
 }
